@@ -39,7 +39,13 @@ def det(a: PolyLike) -> ndpoly:
     # platform integers: the determinant must not wrap around, and it may be
     # negative also for unsigned entries
     if a.dtype.kind in "bu" or (a.dtype.kind == "i" and a.dtype.itemsize < 8):
-        a = a.astype(numpy.int64)
+        # (entries beyond the signed range only leave floating point, which
+        # is what numpy.linalg.det answers in)
+        big = a.dtype.itemsize == 8 and any(
+            numpy.any(coefficient > numpy.iinfo(numpy.int64).max)
+            for coefficient in a.coefficients
+        )
+        a = a.astype(float if big else numpy.int64)
     dims = a.shape[-1]
     index = (slice(None),) * (a.ndim - 2)
     if dims == 1:
